@@ -37,6 +37,7 @@ type OptPlan struct {
 	BundleSize            int   `json:"bundle,omitempty"`
 	CheckLevels           bool  `json:"chk,omitempty"` // DebugCheck = DebugCheckLevels
 	ValueBlocks           bool  `json:"vb,omitempty"`
+	FilesCheck            bool  `json:"files,omitempty"` // compare the directory with the version at wait/restart steps
 }
 
 // IterOp is one iterator operation.
